@@ -4,6 +4,7 @@ import Tetro.Model.Whole
 import Tetro.Proofs.Whole
 import Tetro.Proofs.WholeSafe
 import Tetro.Proofs.WholeTraces
+import Tetro.Lemmas.BoardTrace
 
 /-!
 C15 inside the whole-machine model: the two models of `ppu.EndMachineCycle` keep the same clock.
@@ -19,7 +20,7 @@ steps): whatever the scene and the pixel state, one call of `Render.tick` with t
 -/
 
 namespace Tetro.C15Whole
-open Tetro.Model Tetro.Model.Render Tetro.Model.Whole
+open Tetro.Model Tetro.Model.Render Tetro.Model.Whole Tetro.WholeProofs Tetro.BoardTrace
 
 /-- the four timing fields of a pixel state -/
 def clock (st : PState) : Nat × Nat × Nat × Bool := (st.ticks, st.mode, st.ly, st.firstLine)
@@ -276,5 +277,86 @@ example : enabled (sceneOf exBoard.m) = exBoard.m.ppu.enabled ∧ exBoard.m.ppu.
     exBoard.m.ppu.ticks < 17556 ∧ exBoard.m.ppu.lcdcLow < 128 ∧ (Board.ppuStep exBoard).crashed = false ∧
     clock (Board.ppuStep exBoard).pix = clock (syncPix (Board.ppuStep exBoard).m.ppu pixInit) := by
   decide +kernel
+
+/-! ### whole cycles and whole runs -/
+
+/-- **clock agreement at the end of every machine cycle.**  If the whole machine is running after a cycle,
+    the pixel state's clock at the end of the cycle is the LCD model's clock: the steps after
+    `ppu.EndMachineCycle` (DMA / RTC, APU, timer) touch neither. -/
+theorem c15_whole_cycle (w : Whole) (h : w.cycle.stopped = false)
+    (hflag : enabled (sceneOf (afterCpu w).2.m) = (afterCpu w).2.m.ppu.enabled)
+    (hlt : (afterCpu w).2.m.ppu.ticks < 17556) :
+    syncPix w.cycle.b.m.ppu w.cycle.b.pix = w.cycle.b.pix := by
+  obtain ⟨hs, hc, hok⟩ := running_before w h
+  have e := whole_cycle_steps w hs hc hok
+  rw [e] at hok ⊢
+  generalize (afterCpu w).2 = b0 at hok hflag hlt ⊢
+  have h3 : b0.ppuStep.dmaStep.crashed = false := by
+    have : b0.ppuStep.dmaStep.apuStep.timerStep.crashed = b0.ppuStep.dmaStep.crashed := by
+      rw [whole_step_apu]; rfl
+    rw [← this]; exact hok
+  have ep : b0.ppuStep.dmaStep.apuStep.timerStep.pix = b0.ppuStep.dmaStep.pix := by
+    rw [whole_step_apu]; rfl
+  have em : b0.ppuStep.dmaStep.apuStep.timerStep.m.ppu = b0.ppuStep.dmaStep.m.ppu := by
+    rw [whole_step_apu]; rfl
+  show syncPix b0.ppuStep.dmaStep.apuStep.timerStep.m.ppu b0.ppuStep.dmaStep.apuStep.timerStep.pix
+      = b0.ppuStep.dmaStep.apuStep.timerStep.pix
+  rw [ep, em]
+  rw [whole_step_dma] at h3 ⊢
+  cases hd : Machine.endMachineCycle Serial.genReadArms b0.ppuStep.m with
+  | none => rw [hd] at h3; cases h3
+  | some m2 =>
+    rw [hd] at h3
+    have h1 : b0.ppuStep.crashed = false := h3
+    obtain ⟨o, rfl⟩ := endMachineCycle_shape _ _ _ hd
+    exact c15_whole_ppuStep b0 hflag hlt h1
+
+/-- the same from the board invariant: no hypothesis about the middle of the cycle is left -/
+theorem c15_whole_cycle_ok (w : Whole) (h : w.cycle.stopped = false) (hb : Tetro.WholeSafe.BoardOk w.b)
+    (hl : w.b.m.ppu.lcdcLow < 128) : syncPix w.cycle.b.m.ppu w.cycle.b.pix = w.cycle.b.pix := by
+  obtain ⟨hs, _, _⟩ := running_before w h
+  have hb' : Tetro.WholeSafe.BoardOk (afterCpu w).2 := Tetro.WholeSafe.whole_cpu_part w.cpu w.b hb
+  obtain ⟨s, hrel⟩ := hb'.lcd
+  have hl' : (afterCpu w).2.m.ppu.lcdcLow < 128 :=
+    low_run _ _ _ hl (Tetro.WholeTraces.whole_lcd_cpu w hs)
+  exact c15_whole_cycle w h (flag_agree _ hl') (ticks_lt_of_rel s _ hrel)
+
+/-- **C15/C13 clock agreement along every run.**  From any state that satisfies the board invariant (in
+    particular every state `c11_whole_never_panics` reaches), after every machine cycle that leaves the machine
+    running, the pixel pipeline's clock is the LCD model's clock. -/
+theorem c15_whole_run (n : Nat) (w : Whole) (hb : Tetro.WholeSafe.BoardOk w.b) (hl : w.b.m.ppu.lcdcLow < 128)
+    (h : (Whole.run (n + 1) w).stopped = false) :
+    syncPix (Whole.run (n + 1) w).b.m.ppu (Whole.run (n + 1) w).b.pix = (Whole.run (n + 1) w).b.pix := by
+  have e : Whole.run (n + 1) w = (Whole.run n w).cycle := run_add n 1 w
+  rw [e] at h ⊢
+  have hn : (Whole.run n w).stopped = false := (running_before _ h).1
+  exact c15_whole_cycle_ok _ h (Tetro.WholeSafe.whole_run_no_crash n w hb).1 (whole_low n w hn hl)
+
+/-! non-vacuity: the demo machine (all-NOP ROM-only cartridge) after its first cycle satisfies the hypotheses of
+    `c15_whole_run`, so its pixel clock agrees with the LCD clock after each of its next 30 cycles
+    (into mode 3 of line 0: sprite search, a mode switch and pixel work all happened) -/
+section
+open Tetro.WholeSafe Tetro.LcdLemmas
+private theorem demo_ok : BoardOk demo.cycle.b := by
+  refine ⟨by decide +kernel, ?_, ?_, ⟨?_, ?_⟩, by decide +kernel⟩
+  · show (0x8000 : Nat) ≤ 0x8000; decide
+  · obtain ⟨r, hr, hrel, _⟩ := step_rel _ _ .tick rel_init
+    have e : Lcd.step Lcd.init .tick = some (Lcd.tickOn Lcd.init) := by decide +kernel
+    rw [e] at hr
+    have e2 : demo.cycle.b.m.ppu = (Lcd.tickOn Lcd.init).p := by decide +kernel
+    rw [e2]
+    exact ⟨_, (Option.some.inj hr) ▸ hrel⟩
+  · show 0xfe00 ≤ demo.cycle.b.m.oam.ppuLastAccess.toNat ∧ demo.cycle.b.m.oam.ppuLastAccess.toNat ≤ 0xfe9f
+    decide +kernel
+  · intro h; exfalso; revert h; decide +kernel
+
+private theorem demo_low : demo.cycle.b.m.ppu.lcdcLow < 128 := by decide +kernel
+private theorem demo_running : (Whole.run (29 + 1) demo.cycle).stopped = false := by decide +kernel
+example : syncPix (Whole.run (29 + 1) demo.cycle).b.m.ppu (Whole.run (29 + 1) demo.cycle).b.pix
+    = (Whole.run (29 + 1) demo.cycle).b.pix :=
+  c15_whole_run 29 demo.cycle demo_ok demo_low demo_running
+example : (Whole.run 30 demo.cycle).b.m.ppu.mode = 3 ∧ (Whole.run 30 demo.cycle).b.m.ppu.ly = 0 := by
+  decide +kernel
+end
 
 end Tetro.C15Whole
